@@ -290,8 +290,38 @@ fn extended_case(rng: &mut Rng, n: usize) -> Case {
     c
 }
 
+/// the query is a stored element that lies exactly on the border of its leaf group's box: a 30x30 lattice (one
+/// group of 900) whose first row / column carries the query, and a compact cluster of 900 (another group) a few
+/// lattice steps beyond that border, nearer to the query than the lattice box's corners.  The lattice starts at a
+/// 2^24 boundary of the coordinate that separates it from the cluster, the other coordinate stays inside one
+/// aligned 2^24 block: the Z-order then puts the whole cluster before the whole lattice, i.e. in different groups.
+/// A box distance that is not 0 on the border lets the cluster overtake the query's own element (distance 0).
+fn on_border_case(rng: &mut Rng, variant: u64) -> Case {
+    let s: i64 = *rng.pick(&[17_000i64, 9_000, 4_000]);
+    let a0: i64 = 1 << 24; // separating coordinate of the lattice's first line
+    let b0: i64 = 3 * (1 << 24) + 4_000_000 + rng.range(0, 1_000_000); // other coordinate, inside one 2^24 block
+    let along_lat = variant % 2 == 0; // true: border is the southern row (separating coordinate = latitude)
+    let mk = |a: i64, b: i64| if along_lat { clamp_pt(a, b) } else { clamp_pt(b % (80_000_000), a) };
+    let mut pts = Vec::with_capacity(1800);
+    for i in 0..30i64 {
+        for j in 0..30i64 {
+            pts.push(mk(a0 + i * s, b0 + j * s));
+        }
+    }
+    let qj = 10 + rng.range(0, 9);
+    let q = mk(a0, b0 + qj * s);
+    for _ in 0..900 {
+        pts.push(mk(a0 - 4 * s - rng.range(0, 2 * s), b0 + qj * s + rng.range(-s / 20, s / 20)));
+    }
+    rng.shuffle(&mut pts);
+    make_case("query-on-border", q, &pts)
+}
+
 fn generate(rng: &mut Rng, tier: Tier, cases: &mut Vec<Case>) {
     let thorough = tier == Tier::Thorough;
+    for v in 0..(if thorough { 24 } else { 6 }) {
+        cases.push(on_border_case(rng, v));
+    }
     // --- structural boundaries of the bulk loader, every query position
     let mut boundary: Vec<usize> = vec![0, 1, 2, 29, 30, 31, 59, 60, 61, 899, 900, 901, 902, 1799, 1800, 1801];
     if thorough {
